@@ -192,7 +192,7 @@ def _mat(label, got, want, requested, named, names):
 NORMAL_FORM_HITS = [0]
 
 
-def equality_claim(g, w):
+def equality_claim(g, w, sqrt_squares=False):
     """z3 Bool equivalent to (or implying, under non-zero denominators) g == w.  The difference is first brought
     to rational-function normal form over atoms (ratnorm); when it cancels to the zero polynomial the query handed
     to the solver is the trivial residual 0 == 0."""
@@ -201,7 +201,7 @@ def equality_claim(g, w):
     if z3.is_rational_value(d) and d.as_fraction() == 0:
         return z3.BoolVal(True)
     try:
-        num, _ = Normaliser().residual(g, w)
+        num, _ = Normaliser(sqrt_squares=sqrt_squares).residual(g, w)
         if not num:
             NORMAL_FORM_HITS[0] += 1
             return z3.RealVal(0) == 0
